@@ -19,7 +19,7 @@
     [catch_unwind]): arena indexing and the [unwrap]s on child links inside [_remove_node] /
     [_retain] — the model is a tree, not an arena; see DESIGN.md section 7. *)
 From Coq Require Import List NArith ZArith Bool Lia Permutation.
-From PT Require Import Lookup Lookup2 Mutate Slots Retain MutTrav UnionThm InterDiffThm HistoryExtra EntryApi InstEntry Arena ArenaThm Arena2 Arena2Thm InstArena.
+From PT Require Import Lookup Lookup2 Mutate Slots Retain MutTrav UnionThm InterDiffThm HistoryExtra EntryApi InstEntry Arena ArenaThm Arena2 Arena2Thm Arena3 Arena3Thm InstArena.
 From PT.Properties Require Import Common.
 Import ListNotations.
 
@@ -242,6 +242,58 @@ Proof.
   repeat split; assumption.
 Qed.
 
+(** ... and so do the READ-ONLY observers transcribed at arena level (Arena3.v): the remaining
+    lookups, the start of [children*], the lazy [Cover] iterator at every state it can reach, and —
+    at every view location that is linked from the root — [find] / [find_exact] / [find_lpm] /
+    [left] / [right] / [split] / [has_left] / [has_right] / [prefix] / [value] of [TrieView] and
+    [TrieViewMut]; every location they hand out is again linked from the root. *)
+Theorem C20_arena_lookups_total (am : amap pfx V) (q : pfx) :
+  reachable2 pfx V (peq w) (contains w fl) (is_bit_set w) plen (lcp w fl) pzero am ->
+  (exists o, a_get_key_value pfx V (peq w) (contains w fl) (is_bit_set w) plen am q = Ok o) /\
+  (exists o, a_contains_key pfx V (peq w) (contains w fl) (is_bit_set w) plen am q = Ok o) /\
+  (exists o, a_get_lpm_prefix pfx V (peq w) (contains w fl) (is_bit_set w) plen am q = Ok o) /\
+  (exists o, a_get_lpm_mut pfx V (peq w) (contains w fl) (is_bit_set w) plen am q = Ok o) /\
+  (exists o, a_get_spm pfx V (peq w) (contains w fl) (is_bit_set w) plen am q = Ok o) /\
+  (exists o, a_get_spm_prefix pfx V (peq w) (contains w fl) (is_bit_set w) plen am q = Ok o) /\
+  (exists st, a_children_start pfx V (peq w) (contains w fl) (is_bit_set w) plen am q = Ok st) /\
+  (exists es, a_children pfx V (peq w) (contains w fl) (is_bit_set w) plen am q = Ok es) /\
+  (exists es, a_cover pfx V (peq w) (contains w fl) (is_bit_set w) plen am q = Ok es) /\
+  (forall st, cover_reach pfx V (peq w) (contains w fl) (is_bit_set w) plen (tbl am) q st ->
+     exists r, a_cover_next pfx V (peq w) (contains w fl) (is_bit_set w) plen (S (length (tbl am))) (tbl am) st q = Ok r).
+Proof. exact (reachable_total3 pfx V (peq w) (contains w fl) (is_bit_set w) plen (lcp w fl) pzero (peqN_len w) eq_refl am q). Qed.
+
+Theorem C20_arena_views_total (am : amap pfx V) (l : vloc pfx) (q : pfx) :
+  reachable2 pfx V (peq w) (contains w fl) (is_bit_set w) plen (lcp w fl) pzero am -> live_loc pfx V (tbl am) l ->
+  (exists o, a_v_find pfx V (peq w) (contains w fl) (is_bit_set w) plen (lcp w fl) (tbl am) l q = Ok o /\ olive pfx V (tbl am) o) /\
+  (exists o, a_v_find_exact pfx V (peq w) (contains w fl) (is_bit_set w) plen (tbl am) l q = Ok o /\ olive pfx V (tbl am) o) /\
+  (exists o, a_v_find_lpm pfx V (peq w) (contains w fl) (is_bit_set w) plen (tbl am) l q = Ok o /\ olive pfx V (tbl am) o) /\
+  (exists o, a_vm_find pfx V (peq w) (contains w fl) (is_bit_set w) plen (lcp w fl) (tbl am) l q = Ok o /\ olive pfx V (tbl am) o) /\
+  (exists o, a_vm_find_exact pfx V (peq w) (contains w fl) (is_bit_set w) plen (tbl am) l q = Ok o /\ olive pfx V (tbl am) o) /\
+  (exists o, a_vm_find_lpm pfx V (peq w) (contains w fl) (is_bit_set w) plen (tbl am) l q = Ok o /\ olive pfx V (tbl am) o).
+Proof.
+  intros H L.
+  destruct (reachable_views pfx V (peq w) (contains w fl) (is_bit_set w) plen (lcp w fl) pzero (peqN_len w) eq_refl am l q H L)
+    as (A1 & A2 & A3 & _ & _ & _ & _ & _ & A9 & A10 & A11 & _).
+  repeat split; assumption.
+Qed.
+
+(** ... and the eight simultaneous-traversal iterators (union, intersection, difference, covering
+    difference and their [_mut] twins) as index-pair stack machines over TWO arenas, at any two view
+    locations of any two reachable arenas (possibly of different value types): they return within
+    the fuel [1 + length tableL + length tableR] *)
+Theorem C20_arena_setops_total (R : Type) (amL : amap pfx V) (amR : amap pfx R) (lL lR : vloc pfx) :
+  reachable2 pfx V (peq w) (contains w fl) (is_bit_set w) plen (lcp w fl) pzero amL -> reachable2 pfx R (peq w) (contains w fl) (is_bit_set w) plen (lcp w fl) pzero amR ->
+  live_loc pfx V (tbl amL) lL -> live_loc pfx R (tbl amR) lR ->
+  (exists out, a_union pfx V R (contains w fl) (is_bit_set w) plen (mcmp w) (tbl amL) (tbl amR) (loc_idx lL) (loc_idx lR) = Ok out) /\
+  (exists out, a_union_mut pfx V R (contains w fl) (is_bit_set w) plen (mcmp w) (tbl amL) (tbl amR) (loc_idx lL) (loc_idx lR) = Ok out) /\
+  (exists out, a_intersection pfx V R (contains w fl) (is_bit_set w) plen (mcmp w) (tbl amL) (tbl amR) (loc_idx lL) (loc_idx lR) = Ok out) /\
+  (exists out, a_intersection_mut pfx V R (contains w fl) (is_bit_set w) plen (mcmp w) (tbl amL) (tbl amR) (loc_idx lL) (loc_idx lR) = Ok out) /\
+  (exists out, a_difference pfx V R (contains w fl) (is_bit_set w) plen (mcmp w) (tbl amL) (tbl amR) (loc_idx lL) (loc_idx lR) = Ok out) /\
+  (exists out, a_difference_mut pfx V R (contains w fl) (is_bit_set w) plen (mcmp w) (tbl amL) (tbl amR) (loc_idx lL) (loc_idx lR) = Ok out) /\
+  (exists out, a_covering_difference pfx V R (contains w fl) (is_bit_set w) plen (mcmp w) (tbl amL) (tbl amR) (loc_idx lL) (loc_idx lR) = Ok out) /\
+  (exists out, a_covering_difference_mut pfx V R (contains w fl) (is_bit_set w) plen (mcmp w) (tbl amL) (tbl amR) (loc_idx lL) (loc_idx lR) = Ok out).
+Proof. exact (reachable_setops pfx V R (peq w) (contains w fl) (is_bit_set w) plen (lcp w fl) pzero (mcmp w) (peqN_len w) eq_refl amL amR lL lR). Qed.
+
 (** the values the arena operations return along a history are those of the tree model *)
 Theorem C20_arena_outputs (ops : list (aop pfx V)) :
   a_outs pfx V (peq w) (contains w fl) (is_bit_set w) plen (lcp w fl) ops (a_empty pfx V pzero) = Ok (t_outs pfx V (peq w) (contains w fl) (is_bit_set w) plen (lcp w fl) ops (Trie.empty pfx V pzero)).
@@ -292,4 +344,7 @@ Print Assumptions C20_entry_chain_closure_panic.
 Print Assumptions C20_entry_chain_keeps_invariants.
 Print Assumptions C20_arena_total.
 Print Assumptions C20_arena_outputs.
+Print Assumptions C20_arena_lookups_total.
+Print Assumptions C20_arena_views_total.
+Print Assumptions C20_arena_setops_total.
 Print Assumptions entries_id_length.
